@@ -692,7 +692,10 @@ fn prelude_mentions_host(input: &mut StepParser) -> Option<error::Position> {
             Token::Function(_) | Token::ParenthesisBlock => {
                 let found = input
                     .parse_nested_block::<_, _, ()>(|nested_input| {
-                        Ok(prelude_mentions_host(&mut StepParser::wrap(nested_input)))
+                        let found = prelude_mentions_host(&mut StepParser::wrap(nested_input));
+                        // (the rest of the block has to be consumed, or the result is discarded)
+                        while nested_input.next().is_ok() {}
+                        Ok(found)
                     })
                     .ok()
                     .flatten();
